@@ -135,13 +135,79 @@ func c20Concurrent(w *core.WorkerCtx, rng *rand.Rand) {
 	}
 }
 
+// c20BackToBack: several wallet files are read one right after the other and all results are kept; at the end every
+// result must still be the wallet that was saved in to its file (reads must not share state through what they return).
+func c20BackToBack(w *core.WorkerCtx, rng *rand.Rand) {
+	r := w.R
+	sealer := aeswrapper.New()
+	rounds := w.Pick(4, 40)
+	for round := 0; round < rounds; round++ {
+		k := 2 + rng.Intn(6)
+		key := make([]byte, 16+16*(round%2))
+		rng.Read(key)
+		dir := filepath.Join(w.Scratch, fmt.Sprintf("b2b_%d", round))
+		os.MkdirAll(dir, 0o755)
+		var ws []wallet.Wallet
+		var hs []fileoperations.Helper
+		for i := 0; i < k; i++ {
+			w0, err := wallet.New()
+			if err != nil {
+				return
+			}
+			path := filepath.Join(dir, fmt.Sprintf("w%d", i))
+			h := fileoperations.New(fileoperations.Config{WalletPath: path, WalletPasswd: hex.EncodeToString(key), WalletPemPath: path + ".pem"}, sealer)
+			if h.SaveWallet(&w0) != nil || h.SaveToPem(&w0) != nil {
+				continue
+			}
+			ws = append(ws, w0)
+			hs = append(hs, h)
+		}
+		w.Mark("back to back reads round %d wallets %d", round, len(ws))
+		got := make([]c20Out, len(ws))
+		pems := make([]wallet.Wallet, len(ws))
+		perr := make([]error, len(ws))
+		for i := range hs {
+			got[i] = c20Read(hs[i])
+		}
+		for i := range hs {
+			pems[i], perr[i] = hs[i].ReadFromPem()
+		}
+		for i := range ws {
+			r.Eval(1)
+			r.Count("c20_back_to_back_reads", 1)
+			r.Nontriv(fmt.Sprintf("back-to-back/%d-wallets", len(ws)))
+			if got[i].err != nil || got[i].panicked != nil {
+				r.Violate("C20", "roundtrip/gob-differs", fmt.Sprintf("reading wallet %d of %d back to back failed: %v %v", i, len(ws), got[i].err, got[i].panicked), nil)
+				continue
+			}
+			if !bytes.Equal(got[i].w.Private, ws[i].Private) || !bytes.Equal(got[i].w.Public, ws[i].Public) || got[i].w.Address() != ws[i].Address() {
+				r.Violate("C20", "roundtrip/returned-wallet-changed-by-a-later-read", fmt.Sprintf("wallet %d of %d files read one after the other no longer holds the keys saved in to its file once the others were read (address %s, saved %s)", i, len(ws), got[i].w.Address(), ws[i].Address()), nil)
+			}
+			if perr[i] != nil || !bytes.Equal(pems[i].Private, ws[i].Private) || !bytes.Equal(pems[i].Public, ws[i].Public) {
+				r.Violate("C20", "roundtrip/pem-wallet-changed-by-a-later-read", fmt.Sprintf("PEM wallet %d of %d read one after the other differs from what was saved (err=%v)", i, len(ws), perr[i]), nil)
+			}
+		}
+		os.RemoveAll(dir)
+	}
+}
+
+// c20Held: a wallet as ReadWallet returned it, next to copies of the keys that were saved in to that file.
+type c20Held struct {
+	idx       int
+	got       wallet.Wallet
+	priv, pub []byte
+	addr      string
+}
+
 func c20Worker(w *core.WorkerCtx) {
 	r := w.R
 	rng := core.Rand(w.Seed, "C20", w.Batch)
 	dir := w.Scratch
 	c20Concurrent(w, core.Rand(w.Seed, "C20conc", w.Batch))
+	c20BackToBack(w, core.Rand(w.Seed, "C20b2b", w.Batch))
 	wallets := w.Pick(5, 80)
 	sealer := aeswrapper.New()
+	var held []c20Held
 	for wi := 0; wi < wallets; wi++ {
 		keyLen := 32
 		if (wi+w.Batch)%2 == 1 {
@@ -167,6 +233,19 @@ func c20Worker(w *core.WorkerCtx) {
 			r.Violate("C20", "roundtrip/gob-differs", fmt.Sprintf("save/read with the same %d byte key: err=%v panic=%v equal-private=%v", keyLen, o.err, o.panicked, bytes.Equal(o.w.Private, w0.Private)), nil)
 		}
 		r.Nontriv(fmt.Sprintf("roundtrip/gob/%d", keyLen))
+		// wallets read earlier stay what they were: a later read must not change a value already handed out
+		if o.err == nil && o.panicked == nil {
+			held = append(held, c20Held{wi, o.w, append([]byte{}, w0.Private...), append([]byte{}, w0.Public...), w0.Address()})
+		}
+		for hi := range held {
+			hd := &held[hi]
+			r.Eval(1)
+			if !bytes.Equal(hd.got.Private, hd.priv) || !bytes.Equal(hd.got.Public, hd.pub) || hd.got.Address() != hd.addr {
+				r.Violate("C20", "roundtrip/returned-wallet-changed-by-a-later-read", fmt.Sprintf("the wallet returned for file %d changed after wallet file %d was read (address now %s, was %s)", hd.idx, wi, hd.got.Address(), hd.addr), nil)
+				hd.priv, hd.pub, hd.addr = append([]byte{}, hd.got.Private...), append([]byte{}, hd.got.Public...), hd.got.Address()
+			}
+		}
+		r.Count("c20_held_wallets_rechecked", len(held))
 		// PEM round trip
 		r.Eval(1)
 		if err := h.SaveToPem(&w0); err != nil {
@@ -285,7 +364,7 @@ func init() {
 	core.Register(&core.Check{
 		Spec: core.Spec{
 			Prop:        "C20",
-			Rule:        "For every generated wallet (16 and 32 byte keys alternating): save/read round trip through encrypted GOB and PEM must return identical keys and address; then the encrypted file is replaced by every truncation 0..len-1, by 4 different single byte changes at every offset, by zero extensions, and read with every 1-bit neighbour of the key and 64 PRNG keys: ReadWallet (and Decrypt directly) must return an error; a returned wallet or a panic (recover) is a violation. Exhaustive over offsets and key bits for each wallet. Besides: 2-8 wallets saved at the same moment (3 times each, GOB and PEM) in to different files of one directory, with a shared or with distinct keys, must each read back as the wallet that was saved in to that file. Non-trivial = every corrupted/truncated/wrong-key case; distinct by (kind, offset, file region, key length).",
+			Rule:        "For every generated wallet (16 and 32 byte keys alternating): save/read round trip through encrypted GOB and PEM must return identical keys and address; then the encrypted file is replaced by every truncation 0..len-1, by 4 different single byte changes at every offset, by zero extensions, and read with every 1-bit neighbour of the key and 64 PRNG keys: ReadWallet (and Decrypt directly) must return an error; a returned wallet or a panic (recover) is a violation. Exhaustive over offsets and key bits for each wallet. Besides: 2-8 wallets saved at the same moment (3 times each, GOB and PEM) in to different files of one directory, with a shared or with distinct keys, must each read back as the wallet that was saved in to that file. Every wallet returned by ReadWallet is kept and compared again with the saved keys after every later read (a value handed out must not change). Non-trivial = every corrupted/truncated/wrong-key case; distinct by (kind, offset, file region, key length).",
 			Assumptions: []string{"AES-GCM tag forgery probability is negligible", "wallets come from wallet.New (crypto/rand), keys from the seeded PRNG"},
 			Exhaustive:  true,
 			MinEvals:    2000, MinNontriv: 500,
